@@ -459,7 +459,7 @@ def gen_request(r, scratch, idx, kind=None):
   """A generated program (files on disk under scratch) and its compilable predicates."""
   kind = kind or r.choice(['nonrec', 'nonrec', 'rec', 'rec', 'functor', 'imports', 'imports', 'incant',
                    'needs_incant', 'bad', 'flags', 'dialect_rec', 'typed', 'typed', 'attach_rel',
-                   'combine', 'combine', 'duck_stop', 'duck_stop', 'udf', 'misc', 'misc', 'two_agg_rec'])
+                   'combine', 'combine', 'duck_stop', 'duck_stop', 'udf', 'udf', 'misc', 'misc', 'two_agg_rec'])
   root = None
   flags = None
   bad = False
@@ -544,8 +544,8 @@ def gen_request(r, scratch, idx, kind=None):
     preds = r.sample([P[k] for k in P if k != 'Item'], 5)
   elif kind == 'udf':
     # typed dialects: compiled functions (-->) and user-defined aggregations over semigroups
-    eng = r.choice(['psql', 'psql', 'duckdb', 'bigquery'])
-    names = r.sample(['S', 'Glue', 'Mix', 'Cat', 'Plus', 'Zip', 'W'], r.choice([1, 2, 3]))
+    eng = r.choice(['psql', 'psql', 'psql', 'duckdb', 'bigquery'])
+    names = r.sample(['S', 'Glue', 'Mix', 'Cat', 'Plus', 'Zip', 'W'], r.choice([2, 3, 3, 4]))
     lines = ['@Engine("%s");' % eng, 'F(x) --> %d * x;' % r.randint(2, 5),
              'H(x, y) --> x + y * %d;' % r.randint(2, 5)]
     cols = []
